@@ -28,7 +28,7 @@ fn gen_case(dna: &[u8], cfg: &crate::gen::GenCfg) -> Case {
 	let hash = flags & 0x06 != 0; // 3 of 4
 	let trailing = if flags & 0x18 == 0x18 { 1 + d.below(40) } else { 0 };
 	let sched_dna: Vec<u8> = (0..8).map(|_| d.u8()).collect();
-	let m = crate::gen::gen_model(&mut d, &cfg);
+	let m = super::gen_model_mixed(&mut d, &cfg, true);
 	let len = m.encode().len();
 	let sched = gen_schedule(&mut Dna::new(&sched_dna), len);
 	Case { m, sched, skip, hash, trailing }
